@@ -718,6 +718,49 @@ def check_empty_slots(repo, rep, bound=7):
     return n_total
 
 
+def check_call_kwargs_filter(repo, rep):
+    """R12j: call(name, args, kwargs) must hand on every keyword that could
+    have been written in the expression (`f(from => 1)`): the filter applied
+    to the kwargs dict keeps exactly the keys utils.is_keyword accepts.  A
+    narrower filter (python reserved words, ...) makes the call() spelling
+    fail where the direct spelling works."""
+    from sa import absint
+    ut = repo.module('yaql.language.utils')
+    fi = ut.functions.get('filter_parameters_dict')
+    if fi is None:
+        raise AnalysisError('anchor vanished: utils.filter_parameters_dict')
+    good = {'a', 'from', 'class', 'x_', 'to', 'lambda'}
+    bad = {'1x', '__d', 'a b'}
+
+    def oracle(callee, args, kwargs):
+        if callee.endswith('is_keyword') and args:
+            return (args[0] in good,)
+        return None
+    def inst(value, cls_expr):
+        names = [model.norm(x).rsplit('.', 1)[-1] for x in (
+            cls_expr.elts if isinstance(cls_expr, ast.Tuple)
+            else [cls_expr])]
+        if isinstance(value, (str, int, dict, list, tuple)):
+            return type(value).__name__ in names
+        return False
+    it = absint.Interp(repo, ut, oracle, inst)
+    src = {k: absint.Sym('v:' + k) for k in sorted(good | bad)}
+    try:
+        out = it.run(fi.node, {fi.params()[0]: dict(src)})
+    except absint.Unsupported as e:
+        raise AnalysisError('R12j: filter_parameters_dict uses a construct '
+                            'outside the modelled fragment (%s)' % e)
+    kept = set(out[1]) if out[0] == 'return' and isinstance(
+        out[1], dict) else None
+    rep.ob('R12j', fi.key, kept == good,
+           'the keyword filter of call() keeps %s; it must keep exactly the '
+           'names utils.is_keyword accepts (%s): a keyword that can be '
+           'written directly, such as `from`, is otherwise lost in the '
+           'call() spelling' % (sorted(kept) if kept is not None
+                                else out, sorted(good)),
+           loc=ut.loc(fi.node))
+
+
 def run(repo, rep):
     from sa import resmodel
     resmodel.install(repo, rep)
@@ -772,6 +815,9 @@ def run(repo, rep):
     check_varkw_collisions(repo, rep, uni)
     check_clone_copies_parameters(repo, rep)
     check_call_kwargs_verbatim(repo, rep)
+    rep.rule('R12j', 'CALL-KWARGS-FILTER: call() keeps exactly the keyword '
+             'names is_keyword accepts')
+    check_call_kwargs_filter(repo, rep)
     # a keyword whose value is null is still a keyword that was passed
     from sa.rules import c13
     scope = [f for f in repo.all_functions()
